@@ -19,12 +19,14 @@ func TestC03(t *testing.T) {
 	rc := fullRuleCfg()
 	rc.MinRules, rc.MaxRules, rc.ExprDepth, rc.MaxActions = 2, 7, 2, 2
 	rc.Forget = false
+	rc.Probes = true
 	cfg := rsGenCfg{Rules: rc, Vary: true, JSONFront: true, GRB: true, Rejected: true}
 	_ = gen.Small
 	check(t, 0, budget(6000, 80000), func(rt *rapid.T) {
 		c, rs := genRSCase(rt, cfg)
 		maybeFailingConditions(rt, c, rs)
 		maybeUsedBefore(rt, c, rs, cfg.Rules.State)
+		maybeNested(rt, c, rs)
 		rep, v := runValidated(rt, c, "C03")
 		nt := rep.MultiCand > 0
 		labels := append(featLabels(rs), "ended:"+rep.EndedBy, "firings:"+bucket(rep.Firings))
